@@ -82,12 +82,22 @@ def canon : Msg → String
 /-- a name survives the 8-byte C string field: at most 8 bytes, no NUL inside, valid UTF-8 -/
 def WFName (s : Bytes) : Prop := s.length ≤ GROUP_NAME_LENGTH ∧ 0 ∉ s ∧ utf8Valid s = true
 
+def wfNameBool (s : Bytes) : Bool := decide (s.length ≤ GROUP_NAME_LENGTH) && !s.contains 0 && utf8Valid s
+
 /-- requests: one-byte group number; messages: at least one group (an empty mapping is sent as the
     "ALL" request), distinct one-byte group numbers, names that fit the field -/
 def WF : Msg → Prop
   | .request r => ∀ n, r.group_number = some n → n < 256
   | .message m => m.group_names ≠ [] ∧ (dictKeys m.group_names).Nodup ∧
       ∀ p ∈ m.group_names, p.1 < 256 ∧ WFName p.2
+
+/-- run-time test of `WF` (see `wfBool_iff`) -/
+def wfBool : Msg → Bool
+  | .request r => match r.group_number with
+    | none => true
+    | some n => decide (n < 256)
+  | .message m => !m.group_names.isEmpty && nodupBool (dictKeys m.group_names) &&
+      m.group_names.all (fun p => decide (p.1 < 256) && wfNameBool p.2)
 
 /-- three groups: "Living", "Café" (2-byte é), "😀€" (4-byte + 3-byte characters, 7 bytes) -/
 example : WF (.message ⟨[(0, [0x4C, 0x69, 0x76, 0x69, 0x6E, 0x67]), (1, [0x43, 0x61, 0x66, 0xC3, 0xA9]),
